@@ -32,6 +32,10 @@ M = [
 ]
 # behaviour changes that do NOT break C01/C02: must still verify (no false alarm)
 BENIGN = [
+ # shape rules of the splicer (R16 loop normal form, R17 helper inlining, R18 renamed local): behaviour-preserving refactorings must still verify
+ dict(id='B6-while-as-loop-with-guard (R16)', file='lexer.rs', old="        while depth > 0 && !self.s.done() {", new="        loop {\n            if depth == 0 || self.s.done() {\n                break;\n            }"),
+ dict(id='B7-extracted-helper (R17)', file='parser.rs', old="    pub(crate) fn error_and_eat(&mut self, message: impl Into<String>) {\n        self.error(message);\n\n        self.builder.start_node(SyntaxKind::Error.into());\n        self.eat();\n        self.builder.finish_node();\n    }", new="    fn eat_into_error_node_(&mut self) {\n        self.start_node(SyntaxKind::Error);\n        self.eat();\n        self.finish_node();\n    }\n\n    pub(crate) fn error_and_eat(&mut self, message: impl Into<String>) {\n        self.error(message);\n\n        self.eat_into_error_node_();\n    }"),
+ dict(id='B8-renamed-local (R18)', file='lexer.rs', old="        let mut depth: usize = 1;\n        while depth > 0 && !self.s.done() {\n            if self.s.eat_if(\"*/\") {\n                depth -= 1;\n            } else if self.s.eat_if(\"/*\") {\n                depth += 1;", new="        let mut level: usize = 1;\n        while level > 0 && !self.s.done() {\n            if self.s.eat_if(\"*/\") {\n                level -= 1;\n            } else if self.s.eat_if(\"/*\") {\n                level += 1;"),
  dict(id='B5-var-name-without-start-check (`$` alone is no token of the reference: C14 says nothing)', file='lexer.rs', old="        if !self.s.eat_if(is_identifier_start) {\n            return self.error(\"Invalid variable name\");\n        }\n", new=""),
 
  dict(id='B1-recover-drop-eof-test', file='parser.rs', old="if !self.at_set(&RECOVER_TOKENS) && !self.eof() {", new="if !self.at_set(&RECOVER_TOKENS) {"),
